@@ -1,6 +1,1546 @@
-/- Store-level invariants of KB.Sys (index record = optimistic lock), used by C01 and C02Store. -/
+/-
+  Store-level invariants of KB.Sys (index record = optimistic lock), used by C01 and C02Store.
+  Layout: store frame lemmas; `stepClient_cases` / `stepRetry_cases` (case analysis of a step with the
+  tuple matches resolved); `NoW` (a step applies at most one batch); the invariant `SInv` of reachable
+  states = `Core` (index record of a key = its last applied write, chain condition of every applied
+  write; the parts that depend on 8-byte revisions are guarded by `dealt < 2 ^ 64`) + `Cl` (per-request
+  facts, in-flight revisions fresh and pairwise distinct) + `Dn` (responses); `SInv.reachable`.
+  The well-formedness of the initial store is used only through `G0OK` (stored keys are encodings with
+  revision ≤ dealt, index records parse to a revision ≤ dealt): neither sortedness nor the alphabet matter.
+-/
 import KB.Sys
 import KB.Lemmas.Coder
 import KB.Props.C02
-namespace KB
-end KB
+import KB.Props.C10
+namespace KB.SysStore
+open Generated
+
+/-! ### the association-list store: frame lemmas (no sortedness needed) -/
+
+theorem Store.get_put (s : Store) (k v k' : Bytes) :
+    (s.put k v).get k' = if k' = k then some v else s.get k' := by
+  induction s with
+  | nil =>
+    simp only [Store.put, Store.get]
+    by_cases h : k' = k
+    · subst h; simp
+    · have : cmp k' k ≠ .eq := fun e => h (cmp_eq_iff.mp e)
+      cases hc : cmp k' k <;> simp_all
+  | cons x xs ih =>
+    obtain ⟨k0, v0⟩ := x
+    simp only [Store.put]
+    cases hc : cmp k k0 with
+    | lt =>
+      simp only [Store.get]
+      cases hc' : cmp k' k with
+      | lt =>
+        have h1 : cmp k' k0 = .lt := cmp_lt_trans hc' hc
+        have h2 : k' ≠ k := fun e => by rw [e] at hc'; simp at hc'
+        simp [h1, h2]
+      | eq => simp [cmp_eq_iff.mp hc']
+      | gt =>
+        have h2 : k' ≠ k := fun e => by rw [e] at hc'; simp at hc'
+        simp [h2]
+    | eq =>
+      have e := cmp_eq_iff.mp hc
+      subst e
+      simp only [Store.get]
+      cases hc' : cmp k' k with
+      | lt =>
+        have h2 : k' ≠ k := fun e => by rw [e] at hc'; simp at hc'
+        simp [h2]
+      | eq => simp [cmp_eq_iff.mp hc']
+      | gt =>
+        have h2 : k' ≠ k := fun e => by rw [e] at hc'; simp at hc'
+        simp [h2]
+    | gt =>
+      simp only [Store.get]
+      cases hc' : cmp k' k0 with
+      | lt =>
+        have h2 : k' ≠ k := fun e => by
+          rw [e] at hc'; rw [hc] at hc'; exact Ordering.noConfusion hc'
+        simp [h2]
+      | eq =>
+        have h2 : k' ≠ k := fun e => by
+          rw [e] at hc'; rw [hc] at hc'; exact Ordering.noConfusion hc'
+        simp [h2]
+      | gt => simpa using ih
+
+theorem Store.mem_put {s : Store} {k v : Bytes} {kv : Bytes × Bytes} (h : kv ∈ s.put k v) :
+    kv.1 = k ∨ kv ∈ s := by
+  induction s with
+  | nil => simp [Store.put] at h; left; simp [h]
+  | cons x xs ih =>
+    obtain ⟨k0, v0⟩ := x
+    simp only [Store.put] at h
+    cases hc : cmp k k0 with
+    | lt =>
+      simp only [hc, List.mem_cons] at h
+      rcases h with h | h | h
+      · left; simp [h]
+      · right; simp [h]
+      · right; simp [h]
+    | eq =>
+      simp only [hc, List.mem_cons] at h
+      rcases h with h | h
+      · left; simp [h, cmp_eq_iff.mp hc]
+      · right; simp [h]
+    | gt =>
+      simp only [hc, List.mem_cons] at h
+      rcases h with h | h
+      · right; simp [h]
+      · rcases ih h with h | h
+        · left; exact h
+        · right; simp [h]
+
+theorem Store.mem_of_get {s : Store} {k v : Bytes} (h : s.get k = some v) : (k, v) ∈ s := by
+  induction s with
+  | nil => simp [Store.get] at h
+  | cons x xs ih =>
+    obtain ⟨k0, v0⟩ := x
+    simp only [Store.get] at h
+    cases hc : cmp k k0 with
+    | lt => simp [hc] at h
+    | eq =>
+      simp only [hc, Option.some.injEq] at h
+      simp [h, cmp_eq_iff.mp hc]
+    | gt =>
+      simp only [hc] at h
+      exact List.mem_cons_of_mem _ (ih h)
+
+/-! ### batches -/
+
+theorem commit_pine_put (q : Quirks) (s : Store) (idx new ver v : Bytes) (st' : Store) :
+    commit q s [.pine idx new, .put ver v] = .ok st' ↔
+      (s.get idx = none ∧ st' = (s.put idx new).put ver v) := by
+  simp only [commit, applyOps, applyOp]
+  cases h : s.get idx with
+  | none => simp [eq_comm]
+  | some old => simp
+
+theorem commit_cas_put (q : Quirks) (s : Store) (idx new old ver v : Bytes) (st' : Store) :
+    commit q s [.cas idx new old, .put ver v] = .ok st' ↔
+      (s.get idx = some old ∧ st' = (s.put idx new).put ver v) := by
+  simp only [commit, applyOps, applyOp]
+  cases h : s.get idx with
+  | none => by_cases hq : q.casMissingNotFound <;> simp [hq]
+  | some cur =>
+    by_cases hc : cur = old
+    · subst hc; simp [eq_comm]
+    · simp [hc]
+
+theorem doCommit_not_applied (c : Cfg) (st : Store) (ops : List BOp) (f : Fault)
+    (h : applied (doCommit c st ops f).1 f = false) : (doCommit c st ops f).2 = st := by
+  unfold doCommit at *
+  cases hc : commit c.q st ops with
+  | error e => cases e <;> simp
+  | ok st' =>
+    rw [hc] at h
+    cases f <;> simp_all [applied]
+
+theorem doCommit_applied (c : Cfg) (st : Store) (ops : List BOp) (f : Fault)
+    (h : applied (doCommit c st ops f).1 f = true) : commit c.q st ops = .ok (doCommit c st ops f).2 := by
+  unfold doCommit at *
+  cases hc : commit c.q st ops with
+  | error e => rw [hc] at h; cases e <;> simp [applied] at h
+  | ok st' =>
+    rw [hc] at h
+    cases f <;> simp_all [applied]
+
+/-- an applied commit answers `ok` or `uncertain` -/
+theorem doCommit_applied_res (c : Cfg) (st : Store) (ops : List BOp) (f : Fault)
+    (h : applied (doCommit c st ops f).1 f = true) :
+    (doCommit c st ops f).1 = .ok ∨ (doCommit c st ops f).1 = .uncertain := by
+  generalize (doCommit c st ops f).1 = r at h
+  cases r <;> simp [applied] at h ⊢
+
+/-! ### field projections of the state updates -/
+
+section fields
+variable (g : G) (c : Client) (w : WEvent) (res : WriteRes) (rev : Nat)
+@[simp] theorem G.setClient_store : (g.setClient c).store = g.store := rfl
+@[simp] theorem G.setClient_wlog : (g.setClient c).wlog = g.wlog := rfl
+@[simp] theorem G.setClient_hist : (g.setClient c).hist = g.hist := rfl
+@[simp] theorem G.setClient_dealt : (g.setClient c).dealt = g.dealt := rfl
+@[simp] theorem G.setClient_done : (g.setClient c).done = g.done := rfl
+@[simp] theorem G.setClient_cfg : (g.setClient c).cfg = g.cfg := rfl
+@[simp] theorem G.finish_store : (g.finish c res rev).store = g.store := rfl
+@[simp] theorem G.finish_wlog : (g.finish c res rev).wlog = g.wlog := rfl
+@[simp] theorem G.finish_hist : (g.finish c res rev).hist = g.hist := rfl
+@[simp] theorem G.finish_dealt : (g.finish c res rev).dealt = g.dealt := rfl
+@[simp] theorem G.finish_cfg : (g.finish c res rev).cfg = g.cfg := rfl
+@[simp] theorem G.notify_store : (g.notify w).store = g.store := by unfold G.notify; split <;> rfl
+@[simp] theorem G.notify_wlog : (g.notify w).wlog = g.wlog := by unfold G.notify; split <;> rfl
+@[simp] theorem G.notify_hist : (g.notify w).hist = g.hist := by unfold G.notify; split <;> rfl
+@[simp] theorem G.notify_dealt : (g.notify w).dealt = g.dealt := by unfold G.notify; split <;> rfl
+@[simp] theorem G.notify_done : (g.notify w).done = g.done := by unfold G.notify; split <;> rfl
+@[simp] theorem G.notify_clients : (g.notify w).clients = g.clients := by unfold G.notify; split <;> rfl
+@[simp] theorem G.notify_cfg : (g.notify w).cfg = g.cfg := by unfold G.notify; split <;> rfl
+end fields
+
+theorem finishCreate_store_wlog (g : G) (c : Client) (key val : Bytes) (rev : Nat) (r : CommitRes) :
+    (finishCreate g c key val rev r).store = g.store ∧ (finishCreate g c key val rev r).wlog = g.wlog := by
+  unfold finishCreate
+  split
+  · simp
+  · split <;> simp
+  · simp
+
+theorem createSawIndex_store_wlog (g : G) (c : Client) (key val : Bytes) (rev : Nat) (old : Bytes) :
+    (createSawIndex g c key val rev old).store = g.store ∧ (createSawIndex g c key val rev old).wlog = g.wlog := by
+  unfold createSawIndex
+  split
+  · exact finishCreate_store_wlog ..
+  · split
+    · simp
+    · exact finishCreate_store_wlog ..
+
+
+/-- the state after a commit: new store, and the ghost log entry iff the batch was applied -/
+def afterCommit (g : G) (r : CommitRes) (st : Store) (f : Fault) (key : Bytes) (rev : Nat) (val : Option Bytes)
+    (exp : Expect) : G :=
+  if applied r f then G.logWrite { g with store := st } key rev val exp else { g with store := st }
+
+/-- Case analysis of one client step, with the tuple matches resolved. -/
+theorem stepClient_cases {P : G → Prop} (g : G) (c : Client) (f : Fault)
+    (hStartCreate : ∀ key val, c.pc = .start → c.kind = .create key val →
+      P (G.setClient { g with dealt := g.dealt + 1 } { c with pc := .createCommit (g.dealt + 1) }))
+    (hStartUpdate : ∀ key val exp, c.pc = .start → c.kind = .update key val exp →
+      P (if exp == 0 then G.setClient { g with dealt := g.dealt + 1 } { c with pc := .createCommit (g.dealt + 1) }
+         else if g.dealt + 1 < exp then
+           (G.notify { g with dealt := g.dealt + 1 } (mkW (g.dealt + 1) exp false .put key val)).finish c (.error .drift) (g.dealt + 1)
+         else G.setClient { g with dealt := g.dealt + 1 } { c with pc := .updateCommit (g.dealt + 1) }))
+    (hCreateCommit : ∀ rev key val r st, c.pc = .createCommit rev →
+      doCommit g.cfg g.store (createOps key val rev) f = (r, st) →
+      P (match r with
+         | .conflict idx cv =>
+           if idx == some 0 then createSawIndex (afterCommit g r st f key rev (some val) .absent) c key val rev (cv.getD [])
+           else (afterCommit g r st f key rev (some val) .absent).setClient { c with pc := .createReread rev }
+         | r' => finishCreate (afterCommit g r st f key rev (some val) .absent) c key val rev r'))
+    (hCreateReread : ∀ rev key val, c.pc = .createReread rev →
+      P (match g.store.get (idxKey key) with
+         | some old => createSawIndex g c key val rev old
+         | none => g.setClient { c with pc := .createRetry rev }))
+    (hCreateRetry : ∀ rev key val r st, c.pc = .createRetry rev →
+      doCommit g.cfg g.store (createOps key val rev) f = (r, st) →
+      P (finishCreate (afterCommit g r st f key rev (some val) .absent) c key val rev r))
+    (hCreateOver : ∀ rev old key val r st, c.pc = .createOver rev old →
+      doCommit g.cfg g.store [BOp.cas (idxKey key) (be8 rev) old, BOp.put (encode key rev) val] f = (r, st) →
+      P (finishCreate (afterCommit g r st f key rev (some val) .absent) c key val rev r))
+    (hUpdateCommit : ∀ rev key val exp r st, c.pc = .updateCommit rev → c.kind = .update key val exp →
+      doCommit g.cfg g.store [BOp.cas (idxKey key) (be8 rev) (be8 exp), BOp.put (encode key rev) val] f = (r, st) →
+      P (match r with
+         | .ok => ((afterCommit g r st f key rev (some val) (.rev exp)).notify
+                    (mkW rev exp (r == .ok) .put key val (r == .uncertain))).finish c (.ok rev) rev
+         | .conflict _ _ => ((afterCommit g r st f key rev (some val) (.rev exp)).notify
+                    (mkW rev exp (r == .ok) .put key val (r == .uncertain))).setClient { c with pc := .readLatest rev none }
+         | r' => ((afterCommit g r st f key rev (some val) (.rev exp)).notify
+                    (mkW rev exp (r == .ok) .put key val (r == .uncertain))).finish c (.error (commitErr r')) rev))
+    (hStartDelete : ∀ key exp, c.pc = .start → c.kind = .delete key exp →
+      P (match bget g.cfg g.store key 0 with
+         | .notFound _ => g.setClient { c with pc := .deleteDeal none }
+         | .found v m => g.setClient { c with pc := .deleteDeal (some (v, m)) }))
+    (hDeleteDealNone : ∀ key exp, c.pc = .deleteDeal none → c.kind = .delete key exp →
+      P ((G.notify { g with dealt := g.dealt + 1 } (mkW (g.dealt + 1) 0 false .delete key [])).finish c
+          (.notFound (g.dealt + 1)) (g.dealt + 1)))
+    (hDeleteDealSome : ∀ oldVal modRev key exp, c.pc = .deleteDeal (some (oldVal, modRev)) → c.kind = .delete key exp →
+      P (if exp > 0 && g.dealt + 1 < exp then
+           (G.notify { g with dealt := g.dealt + 1 } (mkW (g.dealt + 1) modRev false .delete key oldVal)).finish c (.error .drift) (g.dealt + 1)
+         else if exp > 0 && exp != modRev then
+           (G.notify { g with dealt := g.dealt + 1 } (mkW (g.dealt + 1) modRev false .delete key oldVal)).setClient
+             { c with pc := .readLatest (g.dealt + 1) (some (key, oldVal, modRev)) }
+         else if g.dealt + 1 ≤ modRev then
+           (G.notify { g with dealt := g.dealt + 1 } (mkW (g.dealt + 1) modRev false .delete key oldVal)).finish c (.error .other) (g.dealt + 1)
+         else G.setClient { g with dealt := g.dealt + 1 } { c with pc := .deleteCommit (g.dealt + 1) oldVal modRev }))
+    (hDeleteCommit : ∀ rev oldVal modRev key exp r st, c.pc = .deleteCommit rev oldVal modRev → c.kind = .delete key exp →
+      doCommit g.cfg g.store [BOp.cas (idxKey key) (be8 rev ++ [0]) (be8 modRev), BOp.put (encode key rev) tombstone] f = (r, st) →
+      P (match r with
+         | .ok => ((afterCommit g r st f key rev none (.rev modRev)).notify
+                    (mkW rev modRev (r == .ok) .delete key oldVal (r == .uncertain))).finish c (.ok rev) rev
+         | .conflict _ _ => ((afterCommit g r st f key rev none (.rev modRev)).notify
+                    (mkW rev modRev (r == .ok) .delete key oldVal (r == .uncertain))).setClient
+                      { c with pc := .readLatest rev (some (key, oldVal, modRev)) }
+         | r' => ((afterCommit g r st f key rev none (.rev modRev)).notify
+                    (mkW rev modRev (r == .ok) .delete key oldVal (r == .uncertain))).finish c (.error (commitErr r')) rev))
+    (hReadLatest : ∀ rev fb, c.pc = .readLatest rev fb →
+      P (match bget g.cfg g.store c.kind.key 0 with
+         | .found v m => g.finish c (.condFailed (max rev m) (some (c.kind.key, v, m))) rev
+         | .notFound _ => g.finish c (.condFailed rev fb) rev))
+    (hNop : P g) : P (stepClient g c f) := by
+  obtain ⟨id, kind, pc, bd⟩ := c
+  unfold stepClient
+  split
+  · exact hStartCreate _ _ ‹_› ‹_›
+  · exact hStartUpdate _ _ _ ‹_› ‹_›
+  · cases kind <;>
+    · simp only []
+      generalize hdc : doCommit g.cfg g.store (createOps _ _ _) f = p
+      obtain ⟨r, st⟩ := p
+      have hL := hCreateCommit _ _ _ r st ‹_› hdc
+      cases r <;> simpa only [afterCommit] using hL
+  · cases kind <;> exact hCreateReread _ _ _ ‹_›
+  · cases kind <;>
+    · simp only []
+      generalize hdc : doCommit g.cfg g.store (createOps _ _ _) f = p
+      obtain ⟨r, st⟩ := p
+      have hL := hCreateRetry _ _ _ r st ‹_› hdc
+      cases r <;> simpa only [afterCommit] using hL
+  · cases kind <;>
+    · simp only []
+      generalize hdc : doCommit g.cfg g.store _ f = p
+      obtain ⟨r, st⟩ := p
+      have hL := hCreateOver _ _ _ _ r st ‹_› hdc
+      cases r <;> simpa only [afterCommit] using hL
+  · simp only []
+    generalize hdc : doCommit g.cfg g.store _ f = p
+    obtain ⟨r, st⟩ := p
+    have hL := hUpdateCommit _ _ _ _ r st ‹_› ‹_› hdc
+    cases r <;> simpa only [afterCommit] using hL
+  · exact hStartDelete _ _ ‹_› ‹_›
+  · exact hDeleteDealNone _ _ ‹_› ‹_›
+  · exact hDeleteDealSome _ _ _ _ ‹_› ‹_›
+  · simp only []
+    generalize hdc : doCommit g.cfg g.store _ f = p
+    obtain ⟨r, st⟩ := p
+    have hL := hDeleteCommit _ _ _ _ _ r st ‹_› ‹_› hdc
+    cases r <;> simpa only [afterCommit] using hL
+  · exact hReadLatest _ _ ‹_›
+  · exact hNop
+
+/-! ### a step applies at most one batch -/
+
+/-- the shape every step has on `(store, wlog)`: nothing, or one applied batch -/
+def NoW (g g' : G) : Prop :=
+  (g'.store = g.store ∧ g'.wlog = g.wlog) ∨ ∃ x, g'.wlog = g.wlog ++ [x]
+
+theorem NoW.of_eq {g g1 g' : G} (h : NoW g g1) (h1 : g'.store = g1.store) (h2 : g'.wlog = g1.wlog) : NoW g g' := by
+  rcases h with ⟨a, b⟩ | ⟨x, hx⟩
+  · exact .inl ⟨h1.trans a, h2.trans b⟩
+  · exact .inr ⟨x, h2.trans hx⟩
+
+theorem NoW.afterCommit {g : G} {ops : List BOp} {f : Fault} {r : CommitRes} {st : Store}
+    (h : doCommit g.cfg g.store ops f = (r, st)) (key : Bytes) (rev : Nat) (val : Option Bytes) (exp : Expect) :
+    NoW g (afterCommit g r st f key rev val exp) := by
+  unfold KB.SysStore.afterCommit
+  cases ha : applied r f with
+  | true => exact .inr ⟨_, rfl⟩
+  | false =>
+    have := doCommit_not_applied g.cfg g.store ops f (by rw [h]; exact ha)
+    rw [h] at this
+    exact .inl ⟨this, rfl⟩
+
+theorem stepClient_noW (g : G) (c : Client) (f : Fault) : NoW g (stepClient g c f) := by
+  apply stepClient_cases
+  · intros; exact .inl ⟨rfl, rfl⟩
+  · intros; split
+    · exact .inl ⟨rfl, rfl⟩
+    · split
+      · exact .inl ⟨by simp, by simp⟩
+      · exact .inl ⟨rfl, rfl⟩
+  · intro rev key val r st _ hdc
+    have h := NoW.afterCommit hdc key rev (some val) .absent
+    split
+    · split
+      · exact h.of_eq (createSawIndex_store_wlog ..).1 (createSawIndex_store_wlog ..).2
+      · exact h.of_eq rfl rfl
+    · exact h.of_eq (finishCreate_store_wlog ..).1 (finishCreate_store_wlog ..).2
+  · intro rev key val _
+    split
+    · exact .inl (createSawIndex_store_wlog ..)
+    · exact .inl ⟨rfl, rfl⟩
+  · intro rev key val r st _ hdc
+    exact (NoW.afterCommit hdc key rev (some val) .absent).of_eq (finishCreate_store_wlog ..).1 (finishCreate_store_wlog ..).2
+  · intro rev old key val r st _ hdc
+    exact (NoW.afterCommit hdc key rev (some val) .absent).of_eq (finishCreate_store_wlog ..).1 (finishCreate_store_wlog ..).2
+  · intro rev key val exp r st _ _ hdc
+    have h := NoW.afterCommit hdc key rev (some val) (.rev exp)
+    split <;> exact h.of_eq (by simp) (by simp)
+  · intros; split <;> exact .inl ⟨rfl, rfl⟩
+  · intros; exact .inl ⟨by simp, by simp⟩
+  · intros
+    split
+    · exact .inl ⟨by simp, by simp⟩
+    · split
+      · exact .inl ⟨by simp, by simp⟩
+      · split
+        · exact .inl ⟨by simp, by simp⟩
+        · exact .inl ⟨rfl, rfl⟩
+  · intro rev oldVal modRev key exp r st _ _ hdc
+    have h := NoW.afterCommit hdc key rev none (.rev modRev)
+    split <;> exact h.of_eq (by simp) (by simp)
+  · intros; split <;> exact .inl ⟨rfl, rfl⟩
+  · exact .inl ⟨rfl, rfl⟩
+
+theorem stepRetry_cases {P : G → Prop} (g : G) (f : Fault)
+    (hNop : P g) (hPop : ∀ rest, P { g with retryQ := rest })
+    (hWrite : ∀ w rest q val r st, g.retryQ = w :: rest → getInternal g.cfg g.store w.key 0 = some (val, w.rev) →
+      doCommit g.cfg g.store
+        [BOp.cas (idxKey w.key) (be8 (g.dealt + 1) ++ if isTomb val then [0] else []) (be8 w.rev ++ if isTomb val then [0] else []),
+         BOp.put (encode w.key (g.dealt + 1)) val] f = (r, st) →
+      P ((afterCommit { g with dealt := g.dealt + 1, retryQ := q } r st f w.key (g.dealt + 1)
+            (if isTomb val then none else some val) (.rev w.rev)).notify
+          { w with rev := g.dealt + 1, valid := r == .ok, uncertain := r == .uncertain })) :
+    P (stepRetry g f) := by
+  unfold stepRetry
+  split
+  · exact hNop
+  · split
+    · exact hPop _
+    · split
+      · exact hPop _
+      · rename_i w rest hq _ val modRev hget hc
+        simp only [Bool.or_eq_true, beq_iff_eq, bne_iff_ne, ne_eq, not_or, Decidable.not_not] at hc
+        obtain ⟨_, rfl⟩ := hc
+        simp only []
+        generalize hdc : doCommit g.cfg g.store _ f = p
+        obtain ⟨r, st⟩ := p
+        have hL := hWrite w rest (if r == CommitRes.ok || r.isCas then rest else w :: rest) _ r st hq hget hdc
+        simpa only [afterCommit] using hL
+
+theorem stepRetry_noW (g : G) (f : Fault) : NoW g (stepRetry g f) := by
+  apply stepRetry_cases
+  · exact .inl ⟨rfl, rfl⟩
+  · intro _; exact .inl ⟨rfl, rfl⟩
+  · intro w rest q val r st _ _ hdc
+    have h := NoW.afterCommit (g := { g with dealt := g.dealt + 1, retryQ := q }) hdc w.key (g.dealt + 1)
+      (if isTomb val then none else some val) (.rev w.rev)
+    exact NoW.of_eq (g1 := afterCommit { g with dealt := g.dealt + 1, retryQ := q } r st f w.key (g.dealt + 1)
+      (if isTomb val then none else some val) (.rev w.rev)) h (by simp) (by simp)
+
+theorem act_noW (g : G) (a : Action) : NoW g (act g a) := by
+  cases a with
+  | begin id kind => unfold act; simp only []; split <;> exact .inl ⟨rfl, rfl⟩
+  | step id f =>
+    unfold act; simp only []; split
+    · exact .inl ⟨rfl, rfl⟩
+    · exact stepClient_noW ..
+  | seq => unfold act stepSeq; simp only []; split <;> exact .inl ⟨rfl, rfl⟩
+  | retry f => exact stepRetry_noW g f
+
+theorem act_store_of_wlog (g : G) (a : Action) (h : (act g a).wlog = g.wlog) :
+    (act g a).store = g.store := by
+  rcases act_noW g a with ⟨h1, _⟩ | ⟨x, hx⟩
+  · exact h1
+  · rw [hx] at h
+    have := congrArg List.length h
+    simp at this
+
+
+/-! ### conflict indices -/
+
+theorem applyOp_conflict_idx {q : Quirks} {s : Store} {i : Nat} {op : BOp} {n : Nat} {v : Option Bytes}
+    (h : applyOp q s i op = .error (.conflict (some n) v)) : n = i + q.idxOffset := by
+  cases op with
+  | pine k v =>
+    simp only [applyOp] at h
+    split at h <;> simp at h
+    exact h.1.symm
+  | cas k new old =>
+    simp only [applyOp] at h
+    split at h
+    · split at h <;> simp at h
+      exact h.1.symm
+    · split at h <;> simp at h
+      exact h.1.symm
+  | put k v => simp [applyOp] at h
+  | del k => simp [applyOp] at h
+  | delcur k v =>
+    simp only [applyOp] at h
+    split at h
+    · split at h <;> simp at h
+      exact h.1.symm
+    · split at h
+      · simp at h
+      · split at h <;> simp at h
+        exact h.1.symm
+
+theorem applyOps_conflict_idx {q : Quirks} {s : Store} {i : Nat} {ops : List BOp} {n : Nat} {v : Option Bytes}
+    (h : applyOps q s i ops = .error (.conflict (some n) v)) : i + q.idxOffset ≤ n := by
+  induction ops generalizing s i with
+  | nil => simp [applyOps] at h
+  | cons op ops ih =>
+    simp only [applyOps] at h
+    split at h
+    · rename_i e he
+      injection h with h
+      subst h
+      have := applyOp_conflict_idx he
+      omega
+    · have := ih h
+      omega
+
+/-! ### encoded keys -/
+
+theorem pow64 : (256 : Nat) ^ 8 = 2 ^ 64 := by decide
+
+theorem be8_length (r : Nat) : (be8 r).length = 8 := by simp [be8, be64]
+
+theorem be8_mod (r : Nat) : be8 (r % 2 ^ 64) = be8 r := by
+  rw [← pow64]; exact beN_mod 8 r
+
+theorem encode_mod (k : Bytes) (r : Nat) : encode k (r % 2 ^ 64) = encode k r := by
+  have := be8_mod r
+  simp only [be8] at this
+  simp only [encode, this]
+
+theorem idxKey_ne_encode {k k' : Bytes} {r : Nat} (h0 : 0 < r) (hr : r < 2 ^ 64) : idxKey k ≠ encode k' r := by
+  intro h
+  have := (encode_inj (by decide) hr h).2
+  omega
+
+theorem encode_ne_idxKey {k k' : Bytes} {r : Nat} (h0 : 0 < r) (hr : r < 2 ^ 64) : encode k' r ≠ idxKey k :=
+  fun h => idxKey_ne_encode h0 hr h.symm
+
+theorem idxKey_inj {k k' : Bytes} (h : idxKey k = idxKey k') : k = k' :=
+  (encode_inj (by decide) (by decide) h).1
+
+theorem be8_append_inj {a b : Nat} {x y : Bytes} (ha : a < 2 ^ 64) (hb : b < 2 ^ 64)
+    (h : be8 a ++ x = be8 b ++ y) : a = b ∧ x = y := by
+  have h1 := List.append_inj h (by simp [be8_length])
+  exact ⟨be64_inj ha hb h1.1, h1.2⟩
+
+/-- decoding a stored key never yields more than the revision it was encoded with -/
+theorem decode_encode_le (k : Bytes) (r : Nat) : ∃ m, decode (encode k r) = .ok k m ∧ m ≤ r := by
+  refine ⟨r % 2 ^ 64, ?_, Nat.mod_le _ _⟩
+  rw [← encode_mod]
+  exact decode_encode k _ (Nat.mod_lt _ (by decide))
+
+/-! ### reads return stored records -/
+
+theorem applyLimit_subset (q : Quirks) (n : Nat) (l : List (Bytes × Bytes)) : ∀ x ∈ applyLimit q n l, x ∈ l := by
+  intro x hx
+  unfold applyLimit at hx
+  split at hx
+  · exact hx
+  · split at hx
+    · exact hx
+    · exact List.mem_of_mem_take hx
+    · exact List.mem_of_mem_take hx
+
+theorem iterate_subset (q : Quirks) (s : Store) (a b : Bytes) (n : Nat) : ∀ x ∈ iterate q s a b n, x ∈ s := by
+  intro x hx
+  unfold iterate at hx
+  have hx := applyLimit_subset _ _ _ x hx
+  split at hx
+  · exact (List.mem_filter.mp hx).1
+  · split at hx
+    · unfold iterDesc at hx
+      simp only [] at hx
+      split at hx
+      · split at hx
+        · simp at hx
+        · rename_i first rest heq
+          have hsub : ∀ y ∈ first :: rest, y ∈ s := by
+            intro y hy
+            rw [← heq] at hy
+            exact (List.mem_filter.mp (List.mem_reverse.mp hy)).1
+          rcases List.mem_cons.mp hx with rfl | hx
+          · exact hsub _ (by simp)
+          · exact hsub _ (List.mem_cons_of_mem _ ((List.takeWhile_sublist _).subset hx))
+      · exact (List.mem_filter.mp (List.mem_reverse.mp ((List.takeWhile_sublist _).subset hx))).1
+    · simp at hx
+
+theorem getInternal_le {c : Cfg} {st : Store} {key : Bytes} {rev : Nat} {v : Bytes} {m : Nat} {dealt : Nat}
+    (hk : ∀ kv ∈ st, ∃ k r, kv.1 = encode k r ∧ r ≤ dealt)
+    (h : getInternal c st key rev = some (v, m)) : m ≤ dealt := by
+  unfold getInternal at h
+  simp only [] at h
+  split at h
+  · simp at h
+  · rename_i ik v' rest heq
+    have hmem : (ik, v') ∈ st := iterate_subset _ _ _ _ _ _ (by rw [heq]; simp)
+    obtain ⟨k, r, hkr, hr⟩ := hk _ hmem
+    simp only at hkr
+    obtain ⟨m', hd, hm'⟩ := decode_encode_le k r
+    rw [hkr, hd] at h
+    simp only [] at h
+    split at h
+    · simp at h
+    · simp only [Option.some.injEq, Prod.mk.injEq] at h
+      omega
+
+/-! ### the core invariant: index record = last applied write -/
+
+/-- the deletion flag an index record carries for a logged value -/
+def flagOf : Option Bytes → Bytes
+  | none => [0]
+  | some _ => []
+
+/-- the last applied write to `k` in a log -/
+def lastW (l : List WLog) (k : Bytes) : Option WLog := (l.filter (fun w => w.key == k)).getLast?
+
+theorem lastW_append (l : List WLog) (w : WLog) (k : Bytes) :
+    lastW (l ++ [w]) k = if w.key = k then some w else lastW l k := by
+  unfold lastW
+  rw [List.filter_append]
+  by_cases h : w.key = k
+  · simp [h]
+  · simp [h]
+
+theorem lastW_some {l : List WLog} {k : Bytes} {p : WLog} (h : lastW l k = some p) : p ∈ l ∧ p.key = k := by
+  have := List.mem_filter.mp (List.mem_of_getLast? h)
+  exact ⟨this.1, by simpa using this.2⟩
+
+/-- index record of `k` in the initial store, parsed -/
+def initIdx (g0 : G) (k : Bytes) : Option (Nat × Bool) := (g0.store.get (idxKey k)).bind parseRevision
+
+/-- `C01.ChainAt` with the predecessor made explicit -/
+def ChainCond (g0 : G) (p : Option WLog) (w : WLog) : Prop :=
+  match p, w.exp with
+  | some p, .rev e => p.rev = e ∧ p.rev < w.rev
+  | some p, .absent => p.val = none ∧ p.rev < w.rev
+  | none, .rev e => ∃ t, initIdx g0 w.key = some (e, t) ∧ e < w.rev
+  | none, .absent => initIdx g0 w.key = none ∨ ∃ m, initIdx g0 w.key = some (m, true) ∧ m < w.rev
+
+/-- what the store holds for key `k` whose last applied write is `p` -/
+def IdxOK (g0 : G) (store : Store) (p : Option WLog) (k : Bytes) : Prop :=
+  match p with
+  | some p => store.get (idxKey k) = some (be8 p.rev ++ flagOf p.val) ∧
+              store.get (encode k p.rev) = some (p.val.getD tombstone)
+  | none => store.get (idxKey k) = g0.store.get (idxKey k)
+
+/-- facts about the initial state (from `C02.StoreOK`) -/
+structure G0OK (g0 : G) : Prop where
+  keys0 : ∀ kv ∈ g0.store, ∃ k r, kv.1 = encode k r ∧ r ≤ g0.dealt
+  idx0 : ∀ k v m t, g0.store.get (idxKey k) = some v → parseRevision v = some (m, t) → m ≤ g0.dealt
+
+structure Core (g0 : G) (store : Store) (dealt : Nat) (wlog : List WLog) : Prop where
+  d0 : g0.dealt ≤ dealt
+  keys : ∀ kv ∈ store, ∃ k r, kv.1 = encode k r ∧ r ≤ dealt
+  revs : ∀ w ∈ wlog, g0.dealt < w.rev ∧ w.rev ≤ dealt
+  idx : dealt < 2 ^ 64 → ∀ k, IdxOK g0 store (lastW wlog k) k
+  chain : dealt < 2 ^ 64 → ∀ i w, wlog[i]? = some w → ChainCond g0 (lastW (wlog.take i) w.key) w
+
+theorem Core.mono {g0 : G} {store : Store} {dealt dealt' : Nat} {wlog : List WLog}
+    (h : Core g0 store dealt wlog) (hd : dealt ≤ dealt') : Core g0 store dealt' wlog where
+  d0 := Nat.le_trans h.d0 hd
+  keys := fun kv hkv => by
+    obtain ⟨k, r, h1, h2⟩ := h.keys kv hkv
+    exact ⟨k, r, h1, Nat.le_trans h2 hd⟩
+  revs := fun w hw => ⟨(h.revs w hw).1, Nat.le_trans (h.revs w hw).2 hd⟩
+  idx := fun hb => h.idx (by omega)
+  chain := fun hb => h.chain (by omega)
+
+/-- the store after an applied write batch -/
+def wstore (store : Store) (key : Bytes) (rev : Nat) (new v : Bytes) : Store :=
+  (store.put (idxKey key) new).put (encode key rev) v
+
+theorem wstore_get_idx {store : Store} {key : Bytes} {rev : Nat} {new v : Bytes} (h0 : 0 < rev) (hr : rev < 2 ^ 64)
+    (k : Bytes) : (wstore store key rev new v).get (idxKey k) = if k = key then some new else store.get (idxKey k) := by
+  unfold wstore
+  rw [Store.get_put, if_neg (idxKey_ne_encode h0 hr), Store.get_put]
+  by_cases h : k = key
+  · simp [h]
+  · have : idxKey k ≠ idxKey key := fun e => h (idxKey_inj e)
+    simp [h, this]
+
+theorem wstore_get_ver {store : Store} {key : Bytes} {rev : Nat} {new v : Bytes} (hr : rev < 2 ^ 64)
+    (k : Bytes) (r : Nat) (h0 : 0 < r) (hr' : r < 2 ^ 64) :
+    (wstore store key rev new v).get (encode k r) =
+      if k = key ∧ r = rev then some v else store.get (encode k r) := by
+  unfold wstore
+  rw [Store.get_put, Store.get_put, if_neg (encode_ne_idxKey h0 hr')]
+  by_cases h : k = key ∧ r = rev
+  · simp [h.1, h.2]
+  · have : encode k r ≠ encode key rev := fun e => h (encode_inj hr' hr e)
+    simp [h, this]
+
+theorem Core.write {g0 : G} {store : Store} {dealt : Nat} {wlog : List WLog}
+    (h : Core g0 store dealt wlog) (w : WLog) (new v : Bytes)
+    (hnew : new = be8 w.rev ++ flagOf w.val) (hv : v = w.val.getD tombstone)
+    (hr1 : g0.dealt < w.rev) (hr2 : w.rev ≤ dealt)
+    (hch : dealt < 2 ^ 64 → ChainCond g0 (lastW wlog w.key) w) :
+    Core g0 (wstore store w.key w.rev new v) dealt (wlog ++ [w]) where
+  d0 := h.d0
+  keys := fun kv hkv => by
+    rcases Store.mem_put hkv with h1 | h1
+    · exact ⟨w.key, w.rev, h1, hr2⟩
+    · rcases Store.mem_put h1 with h2 | h2
+      · exact ⟨w.key, 0, h2, Nat.zero_le _⟩
+      · exact h.keys kv h2
+  revs := fun x hx => by
+    rcases List.mem_append.mp hx with hx | hx
+    · exact h.revs x hx
+    · simp only [List.mem_singleton] at hx; subst hx; exact ⟨hr1, hr2⟩
+  idx := fun hb k => by
+    have h0 : 0 < w.rev := by omega
+    have hr : w.rev < 2 ^ 64 := by omega
+    rw [lastW_append]
+    by_cases hk : w.key = k
+    · subst hk
+      simp only [if_true, IdxOK]
+      rw [wstore_get_idx h0 hr, wstore_get_ver hr _ _ h0 hr]
+      simp [hnew, hv]
+    · rw [if_neg hk]
+      have hk' : ¬ k = w.key := fun e => hk e.symm
+      have := h.idx hb k
+      cases hl : lastW wlog k with
+      | none =>
+        rw [hl] at this
+        simp only [IdxOK] at this ⊢
+        rw [wstore_get_idx h0 hr, if_neg hk']; exact this
+      | some p =>
+        rw [hl] at this
+        simp only [IdxOK] at this ⊢
+        have hp := h.revs p (lastW_some hl).1
+        rw [wstore_get_idx h0 hr, if_neg hk', wstore_get_ver hr _ _ (by omega) (by omega)]
+        simp only [hk', false_and, if_false]
+        exact this
+  chain := fun hb i x hx => by
+    by_cases hi : i < wlog.length
+    · rw [List.getElem?_append_left hi] at hx
+      rw [List.take_append_of_le_length (Nat.le_of_lt hi)]
+      exact h.chain hb i x hx
+    · have hlen := (List.getElem?_eq_some_iff.mp hx).1
+      simp only [List.length_append, List.length_singleton] at hlen
+      have hi' : i = wlog.length := by omega
+      subst hi'
+      simp only [List.getElem?_append_right (Nat.le_refl _), Nat.sub_self, List.getElem?_cons_zero,
+        Option.some.injEq] at hx
+      subst hx
+      rw [List.take_append_of_le_length (Nat.le_refl _), List.take_length]
+      exact hch hb
+
+/-! ### the index condition of an applied batch gives the chain condition -/
+
+theorem parseRevision_be8_flag {e : Nat} (he : e < 2 ^ 64) (v : Option Bytes) :
+    parseRevision (be8 e ++ flagOf v) = some (e, v.isNone) := by
+  cases v with
+  | none => exact C10.parseRevision_deleted e 0 he
+  | some x => simpa [flagOf, be8] using C10.parseRevision_live e he
+
+theorem chainCond_pine {g0 : G} {store : Store} {dealt : Nat} {wlog : List WLog}
+    (h : Core g0 store dealt wlog) (hb : dealt < 2 ^ 64) {key : Bytes} (rev : Nat) (val : Option Bytes)
+    (hget : store.get (idxKey key) = none) :
+    ChainCond g0 (lastW wlog key) ⟨key, rev, val, .absent⟩ := by
+  have hi := h.idx hb key
+  cases hl : lastW wlog key with
+  | some p => rw [hl] at hi; simp only [IdxOK] at hi; rw [hget] at hi; simp at hi
+  | none =>
+    rw [hl] at hi; simp only [IdxOK] at hi
+    simp only [ChainCond, initIdx]
+    left; rw [← hi, hget]; rfl
+
+theorem chainCond_over {g0 : G} {store : Store} {dealt : Nat} {wlog : List WLog}
+    (h : Core g0 store dealt wlog) (hb : dealt < 2 ^ 64) {key : Bytes} (rev : Nat) (val : Option Bytes)
+    {old : Bytes} {p : Nat} (hget : store.get (idxKey key) = some old)
+    (hp : parseRevision old = some (p, true)) (hlt : p < rev) :
+    ChainCond g0 (lastW wlog key) ⟨key, rev, val, .absent⟩ := by
+  have hi := h.idx hb key
+  cases hl : lastW wlog key with
+  | some q =>
+    rw [hl] at hi; simp only [IdxOK] at hi
+    have hq := h.revs q (lastW_some hl).1
+    have hold : old = be8 q.rev ++ flagOf q.val := by
+      have := hi.1; rw [hget] at this; exact Option.some.inj this
+    rw [hold, parseRevision_be8_flag (by omega)] at hp
+    simp only [Option.some.injEq, Prod.mk.injEq, Option.isNone_iff_eq_none] at hp
+    simp only [ChainCond]
+    exact ⟨hp.2, by omega⟩
+  | none =>
+    rw [hl] at hi; simp only [IdxOK] at hi
+    simp only [ChainCond, initIdx]
+    right
+    refine ⟨p, ?_, hlt⟩
+    rw [← hi, hget]; exact hp
+
+theorem chainCond_rev {g0 : G} (h0 : G0OK g0) {store : Store} {dealt : Nat} {wlog : List WLog}
+    (h : Core g0 store dealt wlog) (hb : dealt < 2 ^ 64) {key : Bytes} (rev : Nat) (val : Option Bytes)
+    {e : Nat} {fl : Bytes} (hget : store.get (idxKey key) = some (be8 e ++ fl)) (hfl : fl = [] ∨ fl = [0])
+    (he : e ≤ rev) (hr0 : g0.dealt < rev) (hr : rev ≤ dealt) (hfresh : ∀ w ∈ wlog, w.rev ≠ rev) :
+    ChainCond g0 (lastW wlog key) ⟨key, rev, val, .rev e⟩ := by
+  have hi := h.idx hb key
+  cases hl : lastW wlog key with
+  | some q =>
+    rw [hl] at hi; simp only [IdxOK] at hi
+    have hq := h.revs q (lastW_some hl).1
+    have hqf := hfresh q (lastW_some hl).1
+    have := hi.1; rw [hget] at this
+    have := (be8_append_inj (by omega) (by omega) (Option.some.inj this)).1
+    simp only [ChainCond]
+    omega
+  | none =>
+    rw [hl] at hi; simp only [IdxOK] at hi
+    simp only [ChainCond, initIdx]
+    rw [hget] at hi
+    have hpar : ∃ t, parseRevision (be8 e ++ fl) = some (e, t) := by
+      rcases hfl with rfl | rfl
+      · exact ⟨false, by simpa [be8] using C10.parseRevision_live e (by omega)⟩
+      · exact ⟨true, C10.parseRevision_deleted e 0 (by omega)⟩
+    obtain ⟨t, ht⟩ := hpar
+    have := h0.idx0 key _ e t hi.symm ht
+    exact ⟨t, by rw [← hi]; exact ht, by omega⟩
+
+/-! ### per-request invariants -/
+
+/-- the revision a request holds and may still write under -/
+def infl (c : Client) : Option Nat :=
+  match c.pc with
+  | .createCommit r => some r
+  | .createReread r => some r
+  | .createRetry r => some r
+  | .createOver r _ => some r
+  | .updateCommit r => some r
+  | .deleteCommit r _ _ => some r
+  | _ => none
+
+def Fresh (g0 : G) (dealt : Nat) (wlog : List WLog) (r : Nat) : Prop :=
+  g0.dealt < r ∧ r ≤ dealt ∧ ∀ w ∈ wlog, w.rev ≠ r
+
+def CInv (g0 : G) (dealt : Nat) (wlog : List WLog) (c : Client) : Prop :=
+  match c.pc with
+  | .start => True
+  | .createCommit r => Fresh g0 dealt wlog r
+  | .createReread r => Fresh g0 dealt wlog r
+  | .createRetry r => Fresh g0 dealt wlog r
+  | .createOver r old => Fresh g0 dealt wlog r ∧ ∃ p, parseRevision old = some (p, true) ∧ p < r
+  | .updateCommit r => Fresh g0 dealt wlog r ∧ ∀ k v e, c.kind = .update k v e → e ≤ r
+  | .deleteDeal none => True
+  | .deleteDeal (some (_, m)) => m ≤ dealt
+  | .deleteCommit r _ m => Fresh g0 dealt wlog r ∧ m < r
+  | .readLatest r fb => ∀ k v m, fb = some (k, v, m) → m ≤ r
+
+theorem Fresh.mono {g0 : G} {d d' : Nat} {wl : List WLog} {r : Nat} (h : Fresh g0 d wl r) (hd : d ≤ d') :
+    Fresh g0 d' wl r := ⟨h.1, Nat.le_trans h.2.1 hd, h.2.2⟩
+
+theorem Fresh.log {g0 : G} {d : Nat} {wl : List WLog} {r : Nat} (h : Fresh g0 d wl r) {w : WLog} (hw : w.rev ≠ r) :
+    Fresh g0 d (wl ++ [w]) r :=
+  ⟨h.1, h.2.1, fun x hx => by
+    rcases List.mem_append.mp hx with hx | hx
+    · exact h.2.2 x hx
+    · simp only [List.mem_singleton] at hx; subst hx; exact hw⟩
+
+theorem CInv.fresh {g0 : G} {d : Nat} {wl : List WLog} {c : Client} (h : CInv g0 d wl c) {r : Nat}
+    (hr : infl c = some r) : Fresh g0 d wl r := by
+  unfold infl at hr
+  cases hpc : c.pc with
+  | deleteDeal old => simp [hpc] at hr
+  | start => simp [hpc] at hr
+  | readLatest _ _ => simp [hpc] at hr
+  | createCommit r' => simp only [hpc, Option.some.injEq] at hr; simp only [CInv, hpc] at h; exact hr ▸ h
+  | createReread r' => simp only [hpc, Option.some.injEq] at hr; simp only [CInv, hpc] at h; exact hr ▸ h
+  | createRetry r' => simp only [hpc, Option.some.injEq] at hr; simp only [CInv, hpc] at h; exact hr ▸ h
+  | createOver r' _ => simp only [hpc, Option.some.injEq] at hr; simp only [CInv, hpc] at h; exact hr ▸ h.1
+  | updateCommit r' => simp only [hpc, Option.some.injEq] at hr; simp only [CInv, hpc] at h; exact hr ▸ h.1
+  | deleteCommit r' _ _ => simp only [hpc, Option.some.injEq] at hr; simp only [CInv, hpc] at h; exact hr ▸ h.1
+
+theorem CInv.mono {g0 : G} {d d' : Nat} {wl : List WLog} {c : Client} (h : CInv g0 d wl c) (hd : d ≤ d') :
+    CInv g0 d' wl c := by
+  cases hpc : c.pc with
+  | deleteDeal old =>
+    rcases old with _ | ⟨v, m⟩ <;> simp only [CInv, hpc] at h ⊢
+    omega
+  | start => simp only [CInv, hpc]
+  | readLatest _ _ => simp only [CInv, hpc] at h ⊢; exact h
+  | createCommit r' => simp only [CInv, hpc] at h ⊢; exact h.mono hd
+  | createReread r' => simp only [CInv, hpc] at h ⊢; exact h.mono hd
+  | createRetry r' => simp only [CInv, hpc] at h ⊢; exact h.mono hd
+  | createOver r' _ => simp only [CInv, hpc] at h ⊢; exact ⟨h.1.mono hd, h.2⟩
+  | updateCommit r' => simp only [CInv, hpc] at h ⊢; exact ⟨h.1.mono hd, h.2⟩
+  | deleteCommit r' _ _ => simp only [CInv, hpc] at h ⊢; exact ⟨h.1.mono hd, h.2⟩
+
+theorem CInv.log {g0 : G} {d : Nat} {wl : List WLog} {c : Client} (h : CInv g0 d wl c) {w : WLog}
+    (hw : infl c ≠ some w.rev) : CInv g0 d (wl ++ [w]) c := by
+  unfold infl at hw
+  cases hpc : c.pc with
+  | deleteDeal old =>
+    rcases old with _ | ⟨v, m⟩ <;> simp only [CInv, hpc] at h ⊢
+    exact h
+  | start => simp only [CInv, hpc]
+  | readLatest _ _ => simp only [CInv, hpc] at h ⊢; exact h
+  | createCommit r' =>
+    simp only [hpc, ne_eq, Option.some.injEq] at hw; simp only [CInv, hpc] at h ⊢
+    exact h.log (fun e => hw e.symm)
+  | createReread r' =>
+    simp only [hpc, ne_eq, Option.some.injEq] at hw; simp only [CInv, hpc] at h ⊢
+    exact h.log (fun e => hw e.symm)
+  | createRetry r' =>
+    simp only [hpc, ne_eq, Option.some.injEq] at hw; simp only [CInv, hpc] at h ⊢
+    exact h.log (fun e => hw e.symm)
+  | createOver r' _ =>
+    simp only [hpc, ne_eq, Option.some.injEq] at hw; simp only [CInv, hpc] at h ⊢
+    exact ⟨h.1.log (fun e => hw e.symm), h.2⟩
+  | updateCommit r' =>
+    simp only [hpc, ne_eq, Option.some.injEq] at hw; simp only [CInv, hpc] at h ⊢
+    exact ⟨h.1.log (fun e => hw e.symm), h.2⟩
+  | deleteCommit r' _ _ =>
+    simp only [hpc, ne_eq, Option.some.injEq] at hw; simp only [CInv, hpc] at h ⊢
+    exact ⟨h.1.log (fun e => hw e.symm), h.2⟩
+
+/-- the requests in flight: each satisfies its invariant, and no two hold the same revision -/
+def Cl (g0 : G) (dealt : Nat) (wlog : List WLog) (l : List Client) : Prop :=
+  (∀ c ∈ l, CInv g0 dealt wlog c) ∧
+  (∀ c1 ∈ l, ∀ c2 ∈ l, c1.id ≠ c2.id → ∀ r, infl c1 = some r → infl c2 ≠ some r)
+
+theorem Cl.mono {g0 : G} {d d' : Nat} {wl : List WLog} {l : List Client} (h : Cl g0 d wl l) (hd : d ≤ d') :
+    Cl g0 d' wl l := ⟨fun c hc => (h.1 c hc).mono hd, h.2⟩
+
+theorem Cl.sub {g0 : G} {d : Nat} {wl : List WLog} {l l' : List Client} (h : Cl g0 d wl l)
+    (hs : ∀ c ∈ l', c ∈ l) : Cl g0 d wl l' :=
+  ⟨fun c hc => h.1 c (hs c hc), fun c1 h1 c2 h2 => h.2 c1 (hs c1 h1) c2 (hs c2 h2)⟩
+
+theorem Cl.log {g0 : G} {d : Nat} {wl : List WLog} {l : List Client} (h : Cl g0 d wl l) {w : WLog}
+    (hw : ∀ c ∈ l, infl c ≠ some w.rev) : Cl g0 d (wl ++ [w]) l :=
+  ⟨fun c hc => (h.1 c hc).log (hw c hc), h.2⟩
+
+theorem Cl.le_dealt {g0 : G} {d : Nat} {wl : List WLog} {l : List Client} (h : Cl g0 d wl l) {x : Client}
+    (hx : x ∈ l) {r : Nat} (hr : infl x = some r) : r ≤ d := ((h.1 x hx).fresh hr).2.1
+
+/-- members of the client list other than the stepping request -/
+def others (l : List Client) (id : Nat) : List Client := l.filter (fun x => x.id != id)
+
+theorem mem_others {l : List Client} {id : Nat} {x : Client} : x ∈ others l id ↔ x ∈ l ∧ x.id ≠ id := by
+  simp [others]
+
+theorem Cl.others_ne {g0 : G} {d : Nat} {wl : List WLog} {l : List Client} (h : Cl g0 d wl l) {c : Client}
+    (hc : c ∈ l) {r : Nat} (hr : infl c = some r) : ∀ x ∈ others l c.id, infl x ≠ some r := by
+  intro x hx
+  rw [mem_others] at hx
+  exact h.2 c hc x hx.1 (fun e => hx.2 e.symm) r hr
+
+theorem Cl.set {g0 : G} {d : Nat} {wl : List WLog} {l : List Client} {c' : Client}
+    (h : Cl g0 d wl (others l c'.id)) (hc : CInv g0 d wl c')
+    (hd : ∀ r, infl c' = some r → ∀ x ∈ others l c'.id, infl x ≠ some r) :
+    Cl g0 d wl (l.map (fun x => if x.id == c'.id then c' else x)) := by
+  have hmem : ∀ y ∈ l.map (fun x => if x.id == c'.id then c' else x), y = c' ∨ y ∈ others l c'.id := by
+    intro y hy
+    obtain ⟨x, hx, rfl⟩ := List.mem_map.mp hy
+    by_cases e : x.id = c'.id
+    · left; simp [e]
+    · right; simp [e, mem_others, hx]
+  constructor
+  · intro y hy
+    rcases hmem y hy with rfl | hy
+    · exact hc
+    · exact h.1 y hy
+  · intro c1 h1 c2 h2 hne r hr1 hr2
+    rcases hmem c1 h1 with rfl | h1 <;> rcases hmem c2 h2 with rfl | h2
+    · exact hne rfl
+    · exact hd r hr1 c2 h2 hr2
+    · exact hd r hr2 c1 h1 hr1
+    · exact h.2 c1 h1 c2 h2 hne r hr1 hr2
+
+/-- finished requests: a kv carried by a failed-condition response is not newer than the header -/
+def Dn (done : List Done) : Prop :=
+  ∀ d ∈ done, ∀ hdr k v m, d.res = .condFailed hdr (some (k, v, m)) → m ≤ hdr
+
+def toH (w : WLog) : HWrite := { key := w.key, rev := w.rev, val := w.val }
+
+/-- the invariant of reachable states; `SInvE … id` leaves out the requests with identifier `id`
+(the one in the middle of its step) -/
+structure SInvE (g0 : G) (g : G) (l : List Client) : Prop where
+  core : Core g0 g.store g.dealt g.wlog
+  hist : g.hist = g.wlog.map toH
+  cl : Cl g0 g.dealt g.wlog l
+  dn : Dn g.done
+
+abbrev SInv (g0 g : G) : Prop := SInvE g0 g g.clients
+
+/-! ### the state updates preserve the invariant -/
+
+@[simp] theorem G.finish_clients (g : G) (c : Client) (res : WriteRes) (rev : Nat) :
+    (g.finish c res rev).clients = others g.clients c.id := rfl
+
+theorem SInv.toE {g0 g : G} (h : SInv g0 g) (id : Nat) : SInvE g0 g (others g.clients id) :=
+  ⟨h.core, h.hist, h.cl.sub (fun _ hx => (mem_others.mp hx).1), h.dn⟩
+
+theorem SInvE.finish {g0 g : G} {c : Client} (h : SInvE g0 g (others g.clients c.id)) {res : WriteRes} (rev : Nat)
+    (hres : ∀ hdr k v m, res = .condFailed hdr (some (k, v, m)) → m ≤ hdr) : SInv g0 (g.finish c res rev) := by
+  refine ⟨h.core, h.hist, h.cl, ?_⟩
+  intro d hd
+  simp only [G.finish, List.mem_append, List.mem_singleton] at hd
+  rcases hd with hd | rfl
+  · exact h.dn d hd
+  · exact hres
+
+theorem SInvE.set {g0 g : G} {c' : Client} (h : SInvE g0 g (others g.clients c'.id))
+    (hc : CInv g0 g.dealt g.wlog c')
+    (hd : ∀ r, infl c' = some r → ∀ x ∈ others g.clients c'.id, infl x ≠ some r) : SInv g0 (g.setClient c') :=
+  ⟨h.core, h.hist, h.cl.set hc hd, h.dn⟩
+
+theorem SInvE.notify {g0 g : G} {l : List Client} (h : SInvE g0 g l) (w : WEvent) : SInvE g0 (g.notify w) l := by
+  refine ⟨?_, ?_, ?_, ?_⟩
+  · simpa using h.core
+  · simpa using h.hist
+  · simpa using h.cl
+  · simpa using h.dn
+
+theorem SInvE.deal {g0 g : G} {l : List Client} (h : SInvE g0 g l) : SInvE g0 { g with dealt := g.dealt + 1 } l :=
+  ⟨h.core.mono (Nat.le_succ _), h.hist, h.cl.mono (Nat.le_succ _), h.dn⟩
+
+theorem fresh_deal {g0 : G} {store : Store} {dealt : Nat} {wlog : List WLog} (h : Core g0 store dealt wlog) :
+    Fresh g0 (dealt + 1) wlog (dealt + 1) :=
+  ⟨Nat.lt_succ_of_le h.d0, Nat.le_refl _, fun w hw => by have := (h.revs w hw).2; omega⟩
+
+theorem SInv.others_lt {g0 g : G} (h : SInv g0 g) (id : Nat) : ∀ x ∈ others g.clients id, infl x ≠ some (g.dealt + 1) := by
+  intro x hx e
+  have := h.cl.le_dealt (mem_others.mp hx).1 e
+  omega
+
+theorem SInvE.finishCreate {g0 g : G} {c : Client} (h : SInvE g0 g (others g.clients c.id)) (key val : Bytes)
+    (rev : Nat) (r : CommitRes) : SInv g0 (finishCreate g c key val rev r) := by
+  unfold KB.finishCreate
+  have h' := h.notify (mkW rev 0 (r == .ok) .create key val (r == .uncertain))
+  rw [← G.notify_clients g (mkW rev 0 (r == .ok) .create key val (r == .uncertain))] at h'
+  split
+  · exact h'.finish _ (by simp)
+  · split
+    · refine SInvE.set (c' := { c with pc := .readLatest rev none }) h' ?_ ?_
+      · simp [CInv]
+      · simp [infl]
+    · exact h'.finish _ (by simp)
+  · exact h'.finish _ (by simp)
+
+theorem SInvE.createSawIndex {g0 g : G} {c : Client} (h : SInvE g0 g (others g.clients c.id)) (key val : Bytes)
+    {rev : Nat} (old : Bytes) (hf : Fresh g0 g.dealt g.wlog rev) (ho : ∀ x ∈ others g.clients c.id, infl x ≠ some rev) :
+    SInv g0 (createSawIndex g c key val rev old) := by
+  unfold KB.createSawIndex
+  split
+  · exact h.finishCreate ..
+  · split
+    · rename_i prevRev tomb hp hc
+      simp only [Bool.and_eq_true, decide_eq_true_eq] at hc
+      refine SInvE.set (c' := { c with pc := .createOver rev old }) h ?_ ?_
+      · simp only [CInv]
+        exact ⟨hf, prevRev, by rw [hp, hc.1], hc.2⟩
+      · intro r hr
+        simp only [infl, Option.some.injEq] at hr
+        subst hr; exact ho
+    · exact h.finishCreate ..
+
+/-! ### the commit step -/
+
+theorem doCommit_pine_cases {c : Cfg} {s : Store} {idx new ver v : Bytes} {f : Fault} {r : CommitRes} {st : Store}
+    (hdc : doCommit c s [.pine idx new, .put ver v] f = (r, st)) :
+    (applied r f = true ∧ s.get idx = none ∧ st = (s.put idx new).put ver v) ∨ (applied r f = false ∧ st = s) := by
+  cases ha : applied r f with
+  | true =>
+    have := doCommit_applied c s _ f (by rw [hdc]; exact ha)
+    rw [hdc] at this
+    exact .inl ⟨rfl, (commit_pine_put ..).mp this⟩
+  | false =>
+    have := doCommit_not_applied c s _ f (by rw [hdc]; exact ha)
+    rw [hdc] at this
+    exact .inr ⟨rfl, this⟩
+
+theorem doCommit_cas_cases {c : Cfg} {s : Store} {idx new old ver v : Bytes} {f : Fault} {r : CommitRes} {st : Store}
+    (hdc : doCommit c s [.cas idx new old, .put ver v] f = (r, st)) :
+    (applied r f = true ∧ s.get idx = some old ∧ st = (s.put idx new).put ver v) ∨ (applied r f = false ∧ st = s) := by
+  cases ha : applied r f with
+  | true =>
+    have := doCommit_applied c s _ f (by rw [hdc]; exact ha)
+    rw [hdc] at this
+    exact .inl ⟨rfl, (commit_cas_put ..).mp this⟩
+  | false =>
+    have := doCommit_not_applied c s _ f (by rw [hdc]; exact ha)
+    rw [hdc] at this
+    exact .inr ⟨rfl, this⟩
+
+theorem SInvE.afterCommit {g0 g : G} {l : List Client} (h : SInvE g0 g l)
+    {rev : Nat} (hf : Fresh g0 g.dealt g.wlog rev) (ho : ∀ x ∈ l, infl x ≠ some rev)
+    {r : CommitRes} {st : Store} {f : Fault} {key : Bytes} {val : Option Bytes} {exp : Expect} {new v : Bytes}
+    (hnew : new = be8 rev ++ flagOf val) (hv : v = val.getD tombstone)
+    (hcase : (applied r f = true ∧ st = wstore g.store key rev new v ∧
+               (g.dealt < 2 ^ 64 → ChainCond g0 (lastW g.wlog key) ⟨key, rev, val, exp⟩)) ∨
+             (applied r f = false ∧ st = g.store)) :
+    SInvE g0 (afterCommit g r st f key rev val exp) l := by
+  unfold KB.SysStore.afterCommit
+  rcases hcase with ⟨ha, hst, hch⟩ | ⟨ha, hst⟩
+  · rw [if_pos ha]
+    refine ⟨?_, ?_, ?_, h.dn⟩
+    · simp only [G.logWrite, hst]
+      exact h.core.write ⟨key, rev, val, exp⟩ new v hnew hv hf.1 hf.2.1 hch
+    · simp [G.logWrite, h.hist, toH]
+    · simp only [G.logWrite]
+      exact h.cl.log ho
+  · rw [ha]
+    simp only [Bool.false_eq_true, if_false, hst]
+    exact ⟨h.core, h.hist, h.cl, h.dn⟩
+
+theorem afterCommit_conflict (g : G) (i : Option Nat) (cv : Option Bytes) (st : Store) (f : Fault) (key : Bytes)
+    (rev : Nat) (val : Option Bytes) (exp : Expect) :
+    afterCommit g (.conflict i cv) st f key rev val exp = { g with store := st } := by
+  simp [afterCommit, applied]
+
+/-! ### one client step preserves the invariant -/
+
+@[simp] theorem afterCommit_clients (g : G) (r : CommitRes) (st : Store) (f : Fault) (key : Bytes) (rev : Nat)
+    (val : Option Bytes) (exp : Expect) : (afterCommit g r st f key rev val exp).clients = g.clients := by
+  unfold afterCommit; split <;> rfl
+
+@[simp] theorem afterCommit_dealt (g : G) (r : CommitRes) (st : Store) (f : Fault) (key : Bytes) (rev : Nat)
+    (val : Option Bytes) (exp : Expect) : (afterCommit g r st f key rev val exp).dealt = g.dealt := by
+  unfold afterCommit; split <;> rfl
+
+theorem SInvE.nfinish {g0 g : G} {c : Client} (h : SInvE g0 g (others g.clients c.id)) (w : WEvent) {res : WriteRes}
+    (rev : Nat) (hres : ∀ hdr k v m, res = .condFailed hdr (some (k, v, m)) → m ≤ hdr) :
+    SInv g0 ((g.notify w).finish c res rev) := by
+  have h' := h.notify w
+  rw [← G.notify_clients g w] at h'
+  exact h'.finish rev hres
+
+theorem SInvE.nset {g0 g : G} {c' : Client} (h : SInvE g0 g (others g.clients c'.id)) (w : WEvent)
+    (hc : CInv g0 g.dealt g.wlog c')
+    (hd : ∀ r, infl c' = some r → ∀ x ∈ others g.clients c'.id, infl x ≠ some r) :
+    SInv g0 ((g.notify w).setClient c') := by
+  have h' := h.notify w
+  rw [← G.notify_clients g w] at h'
+  exact h'.set (by simpa using hc) (by simpa using hd)
+
+theorem bget_found {c : Cfg} {st : Store} {k : Bytes} {r : Nat} {v : Bytes} {m : Nat}
+    (h : bget c st k r = .found v m) : getInternal c st k r = some (v, m) := by
+  unfold bget at h
+  split at h
+  · simp at h
+  · split at h
+    · simp at h
+    · rename_i heq _
+      simp only [GetRes.found.injEq] at h
+      rw [heq, h.1, h.2]
+
+/-- the invariant after the commit of a request holding `rev` -/
+theorem SInv.commitE {g0 g : G} (h : SInv g0 g) {c : Client} (hc : c ∈ g.clients) {rev : Nat}
+    (hinfl : infl c = some rev)
+    {r : CommitRes} {st : Store} {f : Fault} {key : Bytes} {val : Option Bytes} {exp : Expect} {new v : Bytes}
+    (hnew : new = be8 rev ++ flagOf val) (hv : v = val.getD tombstone)
+    (hcase : (applied r f = true ∧ st = wstore g.store key rev new v ∧
+               (g.dealt < 2 ^ 64 → ChainCond g0 (lastW g.wlog key) ⟨key, rev, val, exp⟩)) ∨
+             (applied r f = false ∧ st = g.store)) :
+    SInvE g0 (afterCommit g r st f key rev val exp) (others (afterCommit g r st f key rev val exp).clients c.id) := by
+  rw [afterCommit_clients]
+  exact (h.toE c.id).afterCommit ((h.cl.1 c hc).fresh hinfl) (h.cl.others_ne hc hinfl) hnew hv hcase
+
+theorem SInv.stepClient {g0 g : G} (h0 : G0OK g0) (h : SInv g0 g) {c : Client} (hc : c ∈ g.clients) (f : Fault) :
+    SInv g0 (stepClient g c f) := by
+  have hci := h.cl.1 c hc
+  have hE := h.toE c.id
+  apply stepClient_cases
+  · -- start / create
+    intro key val hpc hk
+    refine SInvE.set (c' := { c with pc := .createCommit (g.dealt + 1) }) hE.deal ?_ ?_
+    · simp only [CInv]; exact fresh_deal h.core
+    · intro r hr; simp only [infl, Option.some.injEq] at hr; subst hr; exact h.others_lt c.id
+  · -- start / update
+    intro key val exp hpc hk
+    split
+    · refine SInvE.set (c' := { c with pc := .createCommit (g.dealt + 1) }) hE.deal ?_ ?_
+      · simp only [CInv]; exact fresh_deal h.core
+      · intro r hr; simp only [infl, Option.some.injEq] at hr; subst hr; exact h.others_lt c.id
+    · split
+      · exact SInvE.nfinish (g := { g with dealt := g.dealt + 1 }) hE.deal _ _ (by simp)
+      · rename_i hlt
+        refine SInvE.set (c' := { c with pc := .updateCommit (g.dealt + 1) }) hE.deal ?_ ?_
+        · simp only [CInv]
+          refine ⟨fresh_deal h.core, ?_⟩
+          intro k v e he
+          rw [hk] at he
+          simp only [ReqKind.update.injEq] at he
+          omega
+        · intro r hr; simp only [infl, Option.some.injEq] at hr; subst hr; exact h.others_lt c.id
+  · -- createCommit
+    intro rev key val r st hpc hdc
+    have hinfl : infl c = some rev := by simp [infl, hpc]
+    have hf := hci.fresh hinfl
+    have hA := h.commitE hc hinfl (r := r) (st := st) (f := f) (key := key) (val := some val) (exp := .absent)
+      (new := be8 rev) (v := val) (by simp [flagOf]) rfl (by
+        rcases doCommit_pine_cases hdc with ⟨ha, hget, hst⟩ | hn
+        · exact .inl ⟨ha, hst, fun hb => chainCond_pine h.core hb rev (some val) hget⟩
+        · exact .inr hn)
+    split
+    · rw [afterCommit_conflict] at hA ⊢
+      split
+      · exact hA.createSawIndex key val _ hf (h.cl.others_ne hc hinfl)
+      · refine SInvE.set (c' := { c with pc := .createReread rev }) hA ?_ ?_
+        · simp only [CInv]; exact hf
+        · intro r' hr; simp only [infl, Option.some.injEq] at hr; subst hr; exact h.cl.others_ne hc hinfl
+    · exact hA.finishCreate ..
+  · -- createReread
+    intro rev key val hpc
+    have hinfl : infl c = some rev := by simp [infl, hpc]
+    have hf := hci.fresh hinfl
+    split
+    · exact hE.createSawIndex key val _ hf (h.cl.others_ne hc hinfl)
+    · refine SInvE.set (c' := { c with pc := .createRetry rev }) hE ?_ ?_
+      · simp only [CInv]; exact hf
+      · intro r' hr; simp only [infl, Option.some.injEq] at hr; subst hr; exact h.cl.others_ne hc hinfl
+  · -- createRetry
+    intro rev key val r st hpc hdc
+    have hinfl : infl c = some rev := by simp [infl, hpc]
+    have hA := h.commitE hc hinfl (r := r) (st := st) (f := f) (key := key) (val := some val) (exp := .absent)
+      (new := be8 rev) (v := val) (by simp [flagOf]) rfl (by
+        rcases doCommit_pine_cases hdc with ⟨ha, hget, hst⟩ | hn
+        · exact .inl ⟨ha, hst, fun hb => chainCond_pine h.core hb rev (some val) hget⟩
+        · exact .inr hn)
+    exact hA.finishCreate ..
+  · -- createOver
+    intro rev old key val r st hpc hdc
+    have hinfl : infl c = some rev := by simp [infl, hpc]
+    simp only [CInv, hpc] at hci
+    obtain ⟨_, p, hp, hlt⟩ := hci
+    have hA := h.commitE hc hinfl (r := r) (st := st) (f := f) (key := key) (val := some val) (exp := .absent)
+      (new := be8 rev) (v := val) (by simp [flagOf]) rfl (by
+        rcases doCommit_cas_cases hdc with ⟨ha, hget, hst⟩ | hn
+        · exact .inl ⟨ha, hst, fun hb => chainCond_over h.core hb rev (some val) hget hp hlt⟩
+        · exact .inr hn)
+    exact hA.finishCreate ..
+  · -- updateCommit
+    intro rev key val exp r st hpc hk hdc
+    have hinfl : infl c = some rev := by simp [infl, hpc]
+    have hf := hci.fresh hinfl
+    simp only [CInv, hpc] at hci
+    have hle := hci.2 _ _ _ hk
+    have hA := h.commitE hc hinfl (r := r) (st := st) (f := f) (key := key) (val := some val) (exp := .rev exp)
+      (new := be8 rev) (v := val) (by simp [flagOf]) rfl (by
+        rcases doCommit_cas_cases hdc with ⟨ha, hget, hst⟩ | hn
+        · refine .inl ⟨ha, hst, fun hb => ?_⟩
+          exact chainCond_rev h0 h.core hb rev (some val) (fl := []) (by simpa using hget) (.inl rfl) hle
+            hf.1 hf.2.1 hf.2.2
+        · exact .inr hn)
+    split
+    · exact hA.nfinish _ _ (by simp)
+    · refine SInvE.nset (c' := { c with pc := .readLatest rev none }) hA _ ?_ ?_
+      · simp [CInv]
+      · simp [infl]
+    · exact hA.nfinish _ _ (by simp)
+  · -- start / delete
+    intro key exp hpc hk
+    split
+    · refine SInvE.set (c' := { c with pc := .deleteDeal none }) hE ?_ ?_
+      · simp [CInv]
+      · simp [infl]
+    · rename_i v m hb
+      refine SInvE.set (c' := { c with pc := .deleteDeal (some (v, m)) }) hE ?_ ?_
+      · simp only [CInv]
+        exact getInternal_le h.core.keys (bget_found hb)
+      · simp [infl]
+  · -- deleteDeal none
+    intro key exp hpc hk
+    exact SInvE.nfinish (g := { g with dealt := g.dealt + 1 }) hE.deal _ _ (by simp)
+  · -- deleteDeal some
+    intro oldVal modRev key exp hpc hk
+    simp only [CInv, hpc] at hci
+    split
+    · exact SInvE.nfinish (g := { g with dealt := g.dealt + 1 }) hE.deal _ _ (by simp)
+    · split
+      · refine SInvE.nset (g := { g with dealt := g.dealt + 1 })
+          (c' := { c with pc := .readLatest (g.dealt + 1) (some (key, oldVal, modRev)) }) hE.deal _ ?_ ?_
+        · simp only [CInv]
+          intro k v m hm
+          simp only [Option.some.injEq, Prod.mk.injEq] at hm
+          omega
+        · simp [infl]
+      · split
+        · exact SInvE.nfinish (g := { g with dealt := g.dealt + 1 }) hE.deal _ _ (by simp)
+        · refine SInvE.set (c' := { c with pc := .deleteCommit (g.dealt + 1) oldVal modRev }) hE.deal ?_ ?_
+          · simp only [CInv]
+            exact ⟨fresh_deal h.core, by omega⟩
+          · intro r hr; simp only [infl, Option.some.injEq] at hr; subst hr; exact h.others_lt c.id
+  · -- deleteCommit
+    intro rev oldVal modRev key exp r st hpc hk hdc
+    have hinfl : infl c = some rev := by simp [infl, hpc]
+    have hf := hci.fresh hinfl
+    simp only [CInv, hpc] at hci
+    have hlt := hci.2
+    have hA := h.commitE hc hinfl (r := r) (st := st) (f := f) (key := key) (val := none) (exp := .rev modRev)
+      (new := be8 rev ++ [0]) (v := tombstone) rfl rfl (by
+        rcases doCommit_cas_cases hdc with ⟨ha, hget, hst⟩ | hn
+        · refine .inl ⟨ha, hst, fun hb => ?_⟩
+          exact chainCond_rev h0 h.core hb rev none (fl := []) (by simpa using hget) (.inl rfl) (Nat.le_of_lt hlt)
+            hf.1 hf.2.1 hf.2.2
+        · exact .inr hn)
+    split
+    · exact hA.nfinish _ _ (by simp)
+    · refine SInvE.nset (c' := { c with pc := .readLatest rev (some (key, oldVal, modRev)) }) hA _ ?_ ?_
+      · simp only [CInv]
+        intro k v m hm
+        simp only [Option.some.injEq, Prod.mk.injEq] at hm
+        omega
+      · simp [infl]
+    · exact hA.nfinish _ _ (by simp)
+  · -- readLatest
+    intro rev fb hpc
+    simp only [CInv, hpc] at hci
+    split
+    · refine hE.finish _ ?_
+      intro hdr k v m hres
+      simp only [WriteRes.condFailed.injEq, Option.some.injEq, Prod.mk.injEq] at hres
+      omega
+    · refine hE.finish _ ?_
+      intro hdr k v m hres
+      simp only [WriteRes.condFailed.injEq] at hres
+      have := hci k v m hres.2
+      omega
+  · exact h
+
+/-! ### the other actions, runs, initial states -/
+
+theorem SInv.stepRetry {g0 g : G} (h0 : G0OK g0) (h : SInv g0 g) (f : Fault) : SInv g0 (stepRetry g f) := by
+  apply stepRetry_cases
+  · exact h
+  · intro rest; exact ⟨h.core, h.hist, h.cl, h.dn⟩
+  · intro w rest q val r st hq hget hdc
+    have hE : SInvE g0 { g with dealt := g.dealt + 1, retryQ := q } g.clients :=
+      ⟨h.core.mono (Nat.le_succ _), h.hist, h.cl.mono (Nat.le_succ _), h.dn⟩
+    have hle : w.rev ≤ g.dealt := getInternal_le h.core.keys hget
+    have hA := hE.afterCommit (rev := g.dealt + 1) (r := r) (st := st) (f := f) (key := w.key)
+      (val := if isTomb val then none else some val) (exp := .rev w.rev)
+      (new := be8 (g.dealt + 1) ++ if isTomb val then [0] else []) (v := val)
+      (fresh_deal h.core)
+      (fun x hx e => by have := h.cl.le_dealt hx e; omega)
+      (by by_cases ht : isTomb val = true <;> simp [ht, flagOf])
+      (by
+        by_cases ht : isTomb val = true
+        · simp only [ht, if_true, Option.getD_none]
+          simpa [isTomb] using ht
+        · simp [ht])
+      (by
+        rcases doCommit_cas_cases hdc with ⟨ha, hg, hst⟩ | hn
+        · refine .inl ⟨ha, hst, fun hb => ?_⟩
+          have hc' := h.core.mono (Nat.le_succ g.dealt)
+          exact chainCond_rev h0 hc' hb (g.dealt + 1) _ (fl := if isTomb val then [0] else []) hg
+            (by by_cases ht : isTomb val = true <;> simp [ht]) (by omega)
+            (Nat.lt_succ_of_le h.core.d0) (Nat.le_refl _) (fresh_deal h.core).2.2
+        · exact .inr hn)
+    have := hA.notify { w with rev := g.dealt + 1, valid := r == .ok, uncertain := r == .uncertain }
+    refine ⟨this.core, this.hist, ?_, this.dn⟩
+    have hcl := this.cl
+    simpa using hcl
+
+theorem SInv.stepSeq {g0 g : G} (h : SInv g0 g) : SInv g0 (stepSeq g) := by
+  unfold KB.stepSeq
+  split
+  · exact h
+  · exact ⟨h.core.mono (Nat.le_max_left _ _), h.hist, h.cl.mono (Nat.le_max_left _ _), h.dn⟩
+
+theorem SInv.act {g0 g : G} (h0 : G0OK g0) (h : SInv g0 g) (a : Action) : SInv g0 (act g a) := by
+  cases a with
+  | begin id kind =>
+    unfold KB.act; simp only []
+    split
+    · exact h
+    · refine ⟨h.core, h.hist, ?_, h.dn⟩
+      have hmem : ∀ x ∈ g.clients ++ [{ id := id, kind := kind, pc := .start, beginDealt := g.dealt }],
+          x ∈ g.clients ∨ infl x = none ∧ x.pc = .start := by
+        intro x hx
+        rcases List.mem_append.mp hx with hx | hx
+        · exact .inl hx
+        · simp only [List.mem_singleton] at hx; subst hx; exact .inr ⟨rfl, rfl⟩
+      constructor
+      · intro x hx
+        rcases hmem x hx with hx | ⟨_, hx⟩
+        · exact h.cl.1 x hx
+        · simp [CInv, hx]
+      · intro c1 h1 c2 h2 hne r hr1 hr2
+        rcases hmem c1 h1 with h1 | ⟨h1, _⟩
+        · rcases hmem c2 h2 with h2 | ⟨h2, _⟩
+          · exact h.cl.2 c1 h1 c2 h2 hne r hr1 hr2
+          · rw [h2] at hr2; simp at hr2
+        · rw [h1] at hr1; simp at hr1
+  | step id f =>
+    unfold KB.act; simp only []
+    split
+    · exact h
+    · rename_i c hfind
+      exact h.stepClient h0 (List.mem_of_find?_eq_some hfind) f
+  | seq => exact h.stepSeq
+  | retry f => exact h.stepRetry h0 f
+
+theorem SInv.run {g0 g : G} (h0 : G0OK g0) (h : SInv g0 g) (sched : List Action) : SInv g0 (run g sched) := by
+  induction sched generalizing g with
+  | nil => exact h
+  | cons a s ih => exact ih (h.act h0 a)
+
+theorem G0OK.of_storeOK {g0 : G} (hs : C02.StoreOK g0) : G0OK g0 := by
+  obtain ⟨recs, hst, _, hrecs, hb⟩ := hs
+  have hmem : ∀ kv ∈ g0.store, ∃ r ∈ recs, kv = (encode r.key r.rev, r.val) := by
+    intro kv hkv
+    rw [hst] at hkv
+    obtain ⟨r, hr, e⟩ := List.mem_map.mp hkv
+    exact ⟨r, hr, e.symm⟩
+  constructor
+  · intro kv hkv
+    obtain ⟨r, hr, rfl⟩ := hmem kv hkv
+    exact ⟨r.key, r.rev, rfl, (hrecs r hr).2.1⟩
+  · intro k v m t hget hp
+    obtain ⟨r, hr, e⟩ := hmem _ (Store.mem_of_get hget)
+    simp only [Prod.mk.injEq] at e
+    have hrr := (hrecs r hr).2
+    have h0 : r.rev = 0 := ((encode_inj (by decide) (by omega) e.1).2).symm
+    obtain ⟨m', t', hp', hm'⟩ := hrr.2 h0
+    rw [e.2, hp'] at hp
+    simp only [Option.some.injEq, Prod.mk.injEq] at hp
+    omega
+
+theorem SInv.init {g0 : G} (hi : C02.Init g0) (h0 : G0OK g0) : SInv g0 g0 := by
+  obtain ⟨⟨_, _, hcl, _⟩, hh, hw, hd⟩ := hi
+  refine ⟨⟨Nat.le_refl _, h0.keys0, ?_, ?_, ?_⟩, ?_, ?_, ?_⟩
+  · simp [hw]
+  · intro _ k; simp [hw, lastW, IdxOK]
+  · simp [hw]
+  · simp [hh, hw]
+  · simp [hcl, Cl]
+  · simp [hd, Dn]
+
+theorem SInv.reachable {g0 g : G} (hi : C02.Init g0) (hs : C02.StoreOK g0) (hr : Reachable g0 g) : SInv g0 g := by
+  obtain ⟨sched, rfl⟩ := hr
+  exact (SInv.init hi (G0OK.of_storeOK hs)).run (G0OK.of_storeOK hs) sched
+
+/-! ### consequences of the chain property -/
+
+theorem ChainCond.lt {g0 : G} {p w : WLog} (h : ChainCond g0 (some p) w) : p.rev < w.rev := by
+  unfold ChainCond at h
+  split at h <;> simp_all <;> omega
+
+theorem pairwise_le_last {l : List WLog} (hp : (l.map (·.rev)).Pairwise (· < ·)) {p a : WLog}
+    (hl : l.getLast? = some p) (ha : a ∈ l) : a.rev ≤ p.rev := by
+  obtain ⟨ys, rfl⟩ := List.getLast?_eq_some_iff.mp hl
+  rw [List.map_append, List.pairwise_append] at hp
+  rcases List.mem_append.mp ha with ha | ha
+  · exact Nat.le_of_lt (hp.2.2 a.rev (List.mem_map_of_mem ha) p.rev (by simp))
+  · simp only [List.mem_singleton] at ha; subst ha; exact Nat.le_refl _
+
+def ChainAll (g0 : G) (l : List WLog) : Prop :=
+  ∀ i w, l[i]? = some w → ChainCond g0 (lastW (l.take i) w.key) w
+
+theorem chain_pairwise_take {g0 : G} {l : List WLog} (h : ChainAll g0 l) (k : Bytes) (n : Nat) :
+    (((l.take n).filter (fun w => w.key == k)).map (·.rev)).Pairwise (· < ·) := by
+  induction n with
+  | zero => simp
+  | succ n ih =>
+    by_cases hn : n < l.length
+    · rw [List.take_succ_eq_append_getElem hn, List.filter_append, List.map_append]
+      by_cases hk : l[n].key = k
+      · have hc := h n l[n] (List.getElem?_eq_getElem hn)
+        rw [hk] at hc
+        simp only [List.filter_cons, hk, beq_self_eq_true, if_true, List.filter_nil, List.map_cons, List.map_nil]
+        rw [List.pairwise_append]
+        refine ⟨ih, by simp, ?_⟩
+        intro a ha b hb
+        simp only [List.mem_singleton] at hb; subst hb
+        obtain ⟨x, hx, rfl⟩ := List.mem_map.mp ha
+        cases hl : lastW (l.take n) k with
+        | none =>
+          unfold lastW at hl
+          rw [List.getLast?_eq_none_iff] at hl
+          rw [hl] at hx; simp at hx
+        | some p =>
+          rw [hl] at hc
+          have := pairwise_le_last ih hl hx
+          have := hc.lt
+          omega
+      · simp [hk, ih]
+    · rw [List.take_of_length_le (by omega)]
+      rw [List.take_of_length_le (by omega)] at ih
+      exact ih
+
+theorem chain_pairwise {g0 : G} {l : List WLog} (h : ChainAll g0 l) (k : Bytes) :
+    ((l.filter (fun w => w.key == k)).map (·.rev)).Pairwise (· < ·) := by
+  have := chain_pairwise_take h k l.length
+  rwa [List.take_length] at this
+
+theorem chain_no_double {g0 : G} {l : List WLog} (h : ChainAll g0 l) (i j : Nat) (wi wj : WLog)
+    (hi : l[i]? = some wi) (hj : l[j]? = some wj) (hij : i < j) (hk : wi.key = wj.key) (e : Nat)
+    (hei : wi.exp = .rev e) (hej : wj.exp = .rev e) : False := by
+  have hci := h i wi hi
+  have hcj := h j wj hj
+  have hmem : wi ∈ (l.take j).filter (fun w => w.key == wj.key) := by
+    refine List.mem_filter.mpr ⟨?_, by simp [hk]⟩
+    have : (l.take j)[i]? = some wi := by rw [List.getElem?_take_of_lt hij]; exact hi
+    exact List.mem_of_getElem? this
+  have hlt : e < wi.rev := by
+    cases hp : lastW (l.take i) wi.key with
+    | none => rw [hp] at hci; simp only [ChainCond, hei] at hci; obtain ⟨t, _, h2⟩ := hci; exact h2
+    | some q => rw [hp] at hci; simp only [ChainCond, hei] at hci; omega
+  cases hl : lastW (l.take j) wj.key with
+  | none =>
+    unfold lastW at hl
+    rw [List.getLast?_eq_none_iff] at hl
+    rw [hl] at hmem; simp at hmem
+  | some p =>
+    rw [hl] at hcj
+    have hpe : p.rev = e := by
+      unfold ChainCond at hcj
+      rw [hej] at hcj
+      simp only at hcj
+      exact hcj.1
+    have := pairwise_le_last (chain_pairwise_take h wj.key j) hl hmem
+    omega
+
+/-! ### why the `dealt < 2 ^ 64` hypothesis: past 2^64 the 8-byte revision wraps -/
+
+theorem iterate_nil (q : Quirks) (a b : Bytes) (n : Nat) : iterate q [] a b n = [] := by
+  unfold iterate applyLimit iterAsc iterDesc
+  simp only [List.filter_nil, List.reverse_nil, List.takeWhile_nil]
+  split
+  · split <;> simp
+  · cases q.limitMode <;> (simp only []; split <;> simp)
+
+theorem bget_nil (c : Cfg) (k : Bytes) : bget c [] k 0 = .notFound 0 := by
+  simp [bget, getInternal, iterate_nil]
+
+theorem run_append (g : G) (a b : List Action) : run g (a ++ b) = run (run g a) b := by
+  simp [run, List.foldl_append]
+
+/-- a delete of a missing key: consumes one revision and changes nothing else that matters -/
+def bump : List Action := [.begin 0 (.delete [] 0), .step 0 .none, .step 0 .none]
+
+theorem run_bump (g : G) (hc : g.clients = []) (hs : g.store = []) :
+    (run g bump).clients = [] ∧ (run g bump).store = [] ∧ (run g bump).wlog = g.wlog ∧
+    (run g bump).dealt = g.dealt + 1 := by
+  obtain ⟨cfg, store, dealt, committed, slots, retryQ, clients, emitted, hist, wlog, done⟩ := g
+  simp only at hc hs
+  subst hc hs
+  simp [run, bump, act, G.client, stepClient, bget_nil, G.setClient, G.finish, G.notify, mkW]
+
+def bumps : Nat → List Action
+  | 0 => []
+  | n + 1 => bump ++ bumps n
+
+theorem run_bumps (n : Nat) (g : G) (hc : g.clients = []) (hs : g.store = []) :
+    (run g (bumps n)).clients = [] ∧ (run g (bumps n)).store = [] ∧ (run g (bumps n)).wlog = g.wlog ∧
+    (run g (bumps n)).dealt = g.dealt + n := by
+  induction n generalizing g with
+  | zero => exact ⟨hc, hs, rfl, rfl⟩
+  | succ n ih =>
+    obtain ⟨h1, h2, h3, h4⟩ := run_bump g hc hs
+    obtain ⟨i1, i2, i3, i4⟩ := ih (run g bump) h1 h2
+    simp only [bumps, run_append]
+    exact ⟨i1, i2, i3.trans h3, by omega⟩
+
+/-- a create on the empty store -/
+def mkCreate : List Action := [.begin 0 (.create [47] [1]), .step 0 .none, .step 0 .none]
+
+theorem run_mkCreate (g : G) (hc : g.clients = []) (hs : g.store = []) (hw : g.wlog = [])
+    (hm : (g.dealt + 1) % 2 ^ 64 ≠ 0) :
+    (run g mkCreate).wlog = [⟨[47], g.dealt + 1, some [1], .absent⟩] ∧
+    (run g mkCreate).store.get (idxKey [47]) = some (be8 (g.dealt + 1)) := by
+  obtain ⟨cfg, store, dealt, committed, slots, retryQ, clients, emitted, hist, wlog, done⟩ := g
+  simp only at hc hs hw hm
+  subst hc hs hw
+  simp [run, mkCreate, act, G.client, stepClient, G.setClient, createOps, doCommit, commit, applyOps, applyOp,
+    Store.get, applied, G.logWrite, finishCreate, G.finish, G.notify, mkW]
+  rw [Store.get_put, Store.get_put]
+  have : idxKey [47] ≠ encode [47] (dealt + 1) := by
+    rw [← encode_mod]
+    exact idxKey_ne_encode (Nat.pos_of_ne_zero hm) (Nat.mod_lt _ (by decide))
+  simp [this]
+
+/-- Without the bound `index_agrees` fails: from the empty store, after `2 ^ 64` revisions have been
+consumed, a create is stamped `2 ^ 64 + 1` and its index record reads back as revision `1`. -/
+theorem index_agrees_needs_bound :
+    ∃ g0 g : G, C02.Init g0 ∧ C02.StoreOK g0 ∧ Reachable g0 g ∧
+      ∃ w, (g.wlog.filter (fun x => x.key == w.key)).getLast? = some w ∧
+        (g.store.get (idxKey w.key)).bind parseRevision ≠ some (w.rev, w.val.isNone) := by
+  refine ⟨{}, run (run {} (bumps (2 ^ 64))) mkCreate, ?_, ?_, ⟨bumps (2 ^ 64) ++ mkCreate, run_append _ _ _⟩, ?_⟩
+  · exact ⟨⟨rfl, rfl, rfl, rfl⟩, rfl, rfl, rfl⟩
+  · exact ⟨[], rfl, List.Pairwise.nil, by simp, by decide⟩
+  · obtain ⟨h1, h2, h3, h4⟩ := run_bumps (2 ^ 64) {} rfl rfl
+    have h4' : (run {} (bumps (2 ^ 64))).dealt = 2 ^ 64 := by rw [h4]
+    obtain ⟨hw, hg⟩ := run_mkCreate _ h1 h2 h3 (by rw [h4']; decide)
+    refine ⟨⟨[47], 2 ^ 64 + 1, some [1], .absent⟩, ?_, ?_⟩
+    · rw [hw, h4']; rfl
+    · simp only []
+      rw [hg, h4', ← be8_mod]
+      decide
+
+end KB.SysStore
